@@ -243,6 +243,21 @@ func (p cfgPath) SetValue(cfg *Config, opt *options, val value) Error {
 
 	// 2. build intermediate nodes from bottom up
 
+	// The intermediate nodes are fresh roots until step 3: attachValue can
+	// not see yet that a configuration stored below them ends up below node.
+	// A configuration that is node or one of its ancestors would become its
+	// own ancestor: store a copy of it (as attachValue does).
+	if sub, ok := val.(cfgSub); ok && len(fields) > 1 {
+		if n, err := node.toConfig(opt); err == nil {
+			for anc := n; anc != nil; anc = anc.ctx.getParent() {
+				if anc == sub.c {
+					val = sub.cpy(context{})
+					break
+				}
+			}
+		}
+	}
+
 	for ; len(fields) > 1; fields = fields[:len(fields)-1] {
 		field := fields[len(fields)-1]
 
